@@ -1,6 +1,7 @@
 package main
 
 import (
+	"go/ast"
 	"fmt"
 	"go/token"
 	"go/types"
@@ -102,6 +103,16 @@ func (u *unit) calleeContract(f *ssa.Function) *funcContract {
 	fc := u.eng.contractFor(f)
 	if f == nil || f.Pkg == nil {
 		return fc
+	}
+	// the calling package's own view of a function of another package
+	if u.fn != nil && u.fn.Pkg != nil && u.fn.Pkg != f.Pkg {
+		if pc := u.eng.contracts[u.fn.Pkg.Pkg.Path()]; pc != nil {
+			for _, k := range externKeys(f) {
+				if ab := pc.funcs[k+"~callers"]; ab != nil {
+					return ab
+				}
+			}
+		}
 	}
 	if pc := u.eng.contracts[f.Pkg.Pkg.Path()]; pc != nil {
 		if ab := pc.funcs[funcKey(f)+"~callers"]; ab != nil {
@@ -370,44 +381,15 @@ func (u *unit) returnOrd(d *ssa.Return) int {
 	return 0
 }
 
-// applyContract: assert requires, havoc modifies, assume ensures
-func (s *state) applyContract(fc *funcContract, callee *ssa.Function, args []Val, d ssa.Instruction, rt types.Type) Val {
+// applyModifies havocs what a contract's modifies clauses name (after checking the caller's frame)
+func (s *state) applyModifies(fc *funcContract, e *env, pre *state, what string, d ssa.Instruction, depth int) {
 	u := s.u
-	what := fc.key
-	for i := range args {
-		if args[i].Fld != nil {
-			panic(engineErr(fmt.Sprintf("%s: address of a scalar field passed to %s", u.eng.posStr(d.Pos()), what)))
-		}
-	}
-	e := s.contractEnv(fc, callee, args, nil)
-	site := s.site(d)
-	for i, c := range fc.requires {
-		if !c.active() {
+	_ = u
+	for _, m := range fc.modifies {
+		if lk := likeParam(m); lk != "" {
+			s.applyLike(lk, fc, e, pre, what, d, depth)
 			continue
 		}
-		e.what = fmt.Sprintf("call %s requires %q", what, c.src)
-		sc := s.scratch()
-		goal := e.with(sc).evalBool(c.e)
-		save := s.pc
-		s.pc = sc.pc
-		s.oblige("call-requires", what+"."+clauseLabel(c, i), c.src, goal, d.Pos(), site, c.deep)
-		s.pc = append(save, goal)
-	}
-	pre := s.snapshot()
-	// frame: callee's modifies must be covered by ours
-	if fc.modAll {
-		if u.ct != nil && !u.ct.modAll && !u.ct.noframe {
-			s.oblige("frame", "", "callee "+what+" modifies * but the caller does not", "false", d.Pos(), site, false)
-		}
-		for _, h := range s.heapNames() {
-			s.havocHeap(h)
-		}
-		// heaps this path has not touched yet may have been changed too: from here on a heap
-		// touched for the first time is a new symbol, not the entry-state one
-		u.fresh++
-		s.gen = fmt.Sprintf("%s~%d", s.gen, u.fresh)
-	}
-	for _, m := range fc.modifies {
 		e.what = fmt.Sprintf("call %s modifies %q", what, m.src)
 		if g := e.ghostOf(m.e.e); g != nil {
 			s.checkFrameGhost(ghostKey(g), d.Pos())
@@ -446,6 +428,101 @@ func (s *state) applyContract(fc *funcContract, callee *ssa.Function, args []Val
 		}
 		s.storeAt(t, p.S[0], p.S[1], p.Fld, s.symValNoFacts("mod_"+what, t))
 	}
+}
+
+// likeParam: `modifies like(visitor)` - whatever the function bound to that parameter may modify
+func likeParam(m *clause) string {
+	if m.e == nil || m.e.e == nil {
+		return ""
+	}
+	if c, ok := m.e.e.(*ast.CallExpr); ok && len(c.Args) == 1 {
+		if f, ok := c.Fun.(*ast.Ident); ok && f.Name == "like" {
+			if a, ok := c.Args[0].(*ast.Ident); ok {
+				return a.Name
+			}
+		}
+	}
+	return ""
+}
+
+// applyLike: the callee does nothing but call the function value passed as `param`: its effect
+// on the state is the effect that function's own contract allows, any number of times
+func (s *state) applyLike(param string, fc *funcContract, e *env, pre *state, what string, d ssa.Instruction, depth int) {
+	u := s.u
+	if depth > 3 {
+		panic(engineErr("modifies like(...) nested too deep"))
+	}
+	v, ok := e.vars[param]
+	if !ok || len(v.S) != 1 {
+		panic(engineErr(fmt.Sprintf("%s: modifies like(%s): no such function-valued parameter", what, param)))
+	}
+	var fn *ssa.Function
+	var binds []Val
+	if cv, ok := u.closures[v.S[0]]; ok {
+		fn, binds = cv.fn, cv.binds
+	} else if n, ok := litInt(v.S[0]); ok {
+		fn = u.eng.funcByID[int(n)]
+	}
+	if fn == nil {
+		panic(engineErr(fmt.Sprintf("%s: modifies like(%s): the function passed is not known at this call site", what, param)))
+	}
+	fc2 := u.eng.contractFor(fn)
+	if fc2 == nil {
+		panic(engineErr(fmt.Sprintf("%s: modifies like(%s): %s has no contract", what, param, funcKey(fn))))
+	}
+	if fc2.modAll {
+		panic(engineErr(fmt.Sprintf("%s: modifies like(%s): %s modifies *", what, param, funcKey(fn))))
+	}
+	var dummy []Val
+	for _, p := range fn.Params {
+		dummy = append(dummy, s.symValNoFacts("like_"+p.Name(), p.Type()))
+	}
+	saved := s.cvBinds
+	s.cvBinds = binds
+	e2 := s.contractEnv(fc2, fn, dummy, nil)
+	s.cvBinds = saved
+	u.notes["callee "+what+" is assumed to do nothing but call "+funcKey(fn)+" (its contract's modifies clause bounds the effect)"] = true
+	s.applyModifies(fc2, e2, pre, what+"/"+funcKey(fn), d, depth+1)
+}
+
+// applyContract: assert requires, havoc modifies, assume ensures
+func (s *state) applyContract(fc *funcContract, callee *ssa.Function, args []Val, d ssa.Instruction, rt types.Type) Val {
+	u := s.u
+	what := fc.key
+	for i := range args {
+		if args[i].Fld != nil {
+			panic(engineErr(fmt.Sprintf("%s: address of a scalar field passed to %s", u.eng.posStr(d.Pos()), what)))
+		}
+	}
+	e := s.contractEnv(fc, callee, args, nil)
+	site := s.site(d)
+	for i, c := range fc.requires {
+		if !c.active() {
+			continue
+		}
+		e.what = fmt.Sprintf("call %s requires %q", what, c.src)
+		sc := s.scratch()
+		goal := e.with(sc).evalBool(c.e)
+		save := s.pc
+		s.pc = sc.pc
+		s.oblige("call-requires", what+"."+clauseLabel(c, i), c.src, goal, d.Pos(), site, c.deep)
+		s.pc = append(save, goal)
+	}
+	pre := s.snapshot()
+	// frame: callee's modifies must be covered by ours
+	if fc.modAll {
+		if u.ct != nil && !u.ct.modAll && !u.ct.noframe {
+			s.oblige("frame", "", "callee "+what+" modifies * but the caller does not", "false", d.Pos(), site, false)
+		}
+		for _, h := range s.heapNames() {
+			s.havocHeap(h)
+		}
+		// heaps this path has not touched yet may have been changed too: from here on a heap
+		// touched for the first time is a new symbol, not the entry-state one
+		u.fresh++
+		s.gen = fmt.Sprintf("%s~%d", s.gen, u.fresh)
+	}
+	s.applyModifies(fc, e, pre, what, d, 0)
 	// results
 	var results []Val
 	var flat []string
